@@ -16,6 +16,45 @@ import flowdyn.modelphy.burgers as burgers      # noqa: E402
 import flowdyn.modelphy.shallowwater as sw      # noqa: E402
 import flowdyn.modelphy.euler as euler          # noqa: E402
 
+# ----------------------------------------------------------------------------- models live among other models
+_real = {"conv": conv, "burgers": burgers, "sw": sw, "euler": euler}
+
+
+def _decoys():
+    """other models of every family, with other parameters, constructed AFTER the model under test (a process usually holds
+    several models: a model's answers are a function of its own parameters, not of which other models exist or were built last)"""
+    e = _real["euler"]
+    try:
+        e.euler1d(gamma=1.1)
+        e.euler2d(gamma=1.9)
+        e.nozzle(lambda x: 1.0 + 0.0 * x, gamma=1.25)
+        _real["sw"].shallowwater1d(g=3.3)
+        _real["conv"].model(7.7)
+        _real["burgers"].model()
+    except Exception:
+        pass
+
+
+class _Family:
+    """the model module, except that every model class it exposes builds the decoys right after the requested model"""
+
+    def __init__(self, mod):
+        self._mod = mod
+
+    def __getattr__(self, name):
+        obj = getattr(self._mod, name)
+        if isinstance(obj, type) and hasattr(obj, "cons2prim"):
+            def build(*a, **k):
+                m = obj(*a, **k)
+                _decoys()
+                return m
+            build.__name__ = name
+            return build
+        return obj
+
+
+conv, burgers, sw, euler = _Family(conv), _Family(burgers), _Family(sw), _Family(euler)
+
 LIMITERS = ["minmod", "vanalbada", "vanleer", "superbee"]
 LINEAR_RECONS = ["extrapol1", "extrapol2", "k-1", "k0", "k1/3", "k1/2", "k1"]
 ALL_RECONS = LINEAR_RECONS + ["muscl_" + l for l in LIMITERS]
